@@ -93,6 +93,15 @@ def triggers(n):
         "footnote_unref": ([f"[^u{n}]: never referenced"], "ref.footnote"),
         "iref_missing": ([f"[](inv:#nosuch{n}*)"], "myst.iref_missing"),
         "iref_ambiguous": (["[](inv:#mod.fu*)"], "myst.iref_ambiguous"),
+        # the same triggers inside nested-parsed content (directive bodies, quotes, list items)
+        "duplicate_def_nested": ([f"[dn{n}]: http://a", "", "```{note}", f"[dn{n}]: http://b", "", "body", "```"], "myst.duplicate_def"),
+        "duplicate_def_both_nested": (["````{tip}", f"[db{n}]: http://a", "", "```{note}", f"[db{n}]: http://b", "```", "````"], "myst.duplicate_def"),
+        "role_unknown_nested": (["> ```{note}", f"> para {{nosuchrole{n}}}`x` end", "> ```"], "myst.role_unknown"),
+        "directive_unknown_nested": (["- ````{note}", f"  ```{{nosuchdir{n}}}", "  ```", "  ````"], "myst.directive_unknown"),
+        "strikethrough_nested": (["```{note}", f"~~gone {n}~~", "```"], "myst.strikethrough"),
+        "substitution_nested": (["```{note}", f"{{{{ nosuchkey{n} }}}}", "```"], "myst.substitution"),
+        "xref_missing_nested": (["```{note}", f"see [text {n}](#nopen-{n}) end", "```"], "myst.xref_missing"),
+        "attribute_nested": (["> " + f"![a](i.png){{w=notalength{n}}}"], "myst.attribute"),
         "plain": ([f"just a paragraph {n}"], None),
         "plain_list": ([f"- item {n}", "- item b"], None),
     }
@@ -164,12 +173,15 @@ def via_option_string(S):
     return vals.myst_suppress_warnings
 
 
+DOCTITLE = [False]  # docutils' default is True; set per case
+
+
 def run_docutils(text, kw, S, via="list"):
     WL.clear()
     sw = list(S)
     if via == "string" and S and all(x and "," not in x and x == x.strip() for x in S):
         sw = via_option_string(S)
-    doc, w = drive.parse(text, source_path=os.path.join(TMP, "doc.md"), doctitle_xform=False, myst_suppress_warnings=sw, **kw)
+    doc, w = drive.parse(text, source_path=os.path.join(TMP, "doc.md"), doctitle_xform=DOCTITLE[0], myst_suppress_warnings=sw, **kw)
     events = list(WL.events)
     return doc, w, events
 
@@ -197,6 +209,8 @@ def eval_docutils(ctx, case):
     text, kw, exp_tags = build(case)
     S = case["S"]
     detail = {"text": text, "S": S}
+    DOCTITLE[0] = bool(case.get("doctitle"))
+    # (the generated document has exactly one top-level section, which docutils promotes to the document title when doctitle_xform is on)
     try:
         d0, w0, ev0 = run_docutils(text, kw, [])
         dS, wS, evS = run_docutils(text, kw, S, case.get("via", "list"))
@@ -444,6 +458,8 @@ def run_shard(ctx):
         case["S"] = rand_S(R, exp)
         if i % 3 == 1:
             case["via"] = "string"  # the list as the command line / docutils.conf delivers it
+        if i % 5 == 2 and not case.get("front"):
+            case["doctitle"] = True  # docutils' default: a lone section becomes the document title
         nt = eval_case(ctx, case)
         ctx.case(repr(case), bool(nt))
         if i < 2:
